@@ -216,9 +216,9 @@ def run_once_e3(cfg: E3Config, chooser: Chooser, *, world_hook=None, around_run=
             import io
             # with the displays on, tqdm and the task monitor write to stderr: keep the console quiet
             quiet = contextlib.redirect_stderr(io.StringIO()) if cfg.monitor else contextlib.nullcontext()
-            if base.precached:
-                [lab.is_cached(t) for t in built.canon]
             try:
+                if base.precached:
+                    [lab.is_cached(t) for t in built.canon]
                 with quiet, (around_run(world) if around_run is not None else contextlib.nullcontext()):
                     res = e2.call_run(lab, req, base, disable_progress=not cfg.monitor, disable_top=not cfg.monitor,
                                       **({'top_n': 1} if cfg.monitor else {}))     # a display smaller than the number of workers
